@@ -166,4 +166,313 @@ theorem body_write (recs : List Rec) (iw : IW) (k : J → Option Nat → J × Na
     subst hc2
     exact hrest hr
 
+/-- one `Journal.Write` with something to write: it continues the last chunk (`nc = false`) or opens the next one
+(`nc = true`), writes a non-empty prefix, and leaves the chunk full if something is left -/
+theorem journalWrite_spec (j : J) (tss : List (List Int)) (recs : List Rec) (iw : IW) (hj : JL j tss) (hne : recs ≠ []) :
+    ∃ (nc : Bool) (w rest : List Rec) (j' : J),
+      journalWrite j recs iw = (j', w.length,
+        ((if nc then tss else tss.dropLast).length + 1, (if nc then [] else tss.getLast?.getD []).length + w.length),
+        rest, (w.map (·.ts)).foldl IW.see iw) ∧
+      w ≠ [] ∧ recs = w ++ rest ∧ (nc = false → tss ≠ []) ∧ (Full j → nc = true) ∧
+      JL j' ((if nc then tss else tss.dropLast) ++ [(if nc then [] else tss.getLast?.getD []) ++ w.map (·.ts)]) ∧
+      (rest ≠ [] → Full j') := by
+  have hgo : journalWrite j recs iw = journalWrite.go recs iw 4 j none := rfl
+  rw [hgo, go_succ]
+  cases hl : j.chunks.getLast? with
+  | none =>
+    have hnil : j.chunks = [] := List.getLast?_eq_none_iff.mp hl
+    have hsel : sel j none = ({ j with chunks := j.chunks ++ [{ id := j.nextId }], nextId := j.nextId + 1 }, { id := j.nextId }) := by
+      simp [sel, hl, hnil]
+    rw [hsel]
+    obtain ⟨w, rest, j', he, hw, hsplit, hjl, hfull⟩ :=
+      body_write recs iw (journalWrite.go recs iw 3) _ j.chunks { id := j.nextId } tss [] rfl hj.push hj.pos hne
+    refine ⟨true, w, rest, j', ?_, hw, hsplit, by simp, by simp, ?_, hfull⟩
+    · simpa using he
+    · simpa using hjl
+  | some c =>
+    obtain ⟨pre, hpre⟩ := List.getLast?_eq_some_iff.mp hl
+    have htne : tss ≠ [] := by
+      intro h
+      have := congrArg List.length hj.ids
+      simp [hpre, h] at this
+    have hts := tss_snoc tss htne
+    have hj0 := hj
+    rw [hts] at hj
+    have hsel : sel j none = (j, c) := by simp [sel, hl]
+    rw [hsel]
+    by_cases hsz : c.size < j.maxSize
+    · obtain ⟨w, rest, j', he, hw, hsplit, hjl, hfull⟩ :=
+        body_write recs iw (journalWrite.go recs iw 3) j pre c _ _ hpre hj hsz hne
+      refine ⟨false, w, rest, j', ?_, hw, hsplit, fun _ => htne, ?_, ?_, hfull⟩
+      · simpa using he
+      · intro hF
+        have := hF c hl
+        omega
+      · simpa using hjl
+    · have hsz' : j.maxSize ≤ c.size := by omega
+      obtain ⟨w0, rest0, c0, full0, he0, _, _, _, _, _, hf0, _⟩ :=
+        chunkWrite_spec (recs.length + 1) c j.maxSize recs iw 0 (Nat.lt_succ_self _)
+      obtain ⟨hw0, hfull0, hc0⟩ := hf0 hsz'
+      subst hw0 hfull0
+      rw [hc0] at he0
+      have hm := map_repl (c' := c) hj hpre
+      have hbody : body recs iw (journalWrite.go recs iw 3) j c = journalWrite.go recs iw 3 j (some c.id) := by
+        unfold body
+        simp only [he0, hm, ← hpre]
+        simp
+      simp only [hbody]
+      rw [go_succ]
+      have hsel2 : sel j (some c.id) =
+          ({ j with chunks := j.chunks ++ [{ id := j.nextId }], nextId := j.nextId + 1 }, { id := j.nextId }) := by
+        simp [sel, hl]
+      rw [hsel2]
+      obtain ⟨w, rest, j', he, hw, hsplit, hjl, hfull⟩ :=
+        body_write recs iw (journalWrite.go recs iw 2) _ j.chunks { id := j.nextId } tss [] rfl hj0.push hj.pos hne
+      refine ⟨true, w, rest, j', ?_, hw, hsplit, by simp, by simp, ?_, hfull⟩
+      · simpa using he
+      · simpa using hjl
+
+/-! ## the loop of `Service.Write` -/
+
+/-- the index update `writeWith` folds over the `OnWrite` calls -/
+def F (acc : CIndex.St × List Nat) (call : Nat × Nat × Nat × Int × Int) : CIndex.St × List Nat :=
+  let (fi, la, cid, mn, mx) := call
+  let (s', r) := CIndex.onWrite acc.1 fi la cid mn mx
+  (s', if r != .ok && !acc.2.contains cid then acc.2 ++ [cid] else acc.2)
+
+theorem loop_round (fuel : Nat) (j : J) (recs : List Rec) (iw : IW) (o : Out) (j' : J) (n : Nat) (pos : Nat × Nat)
+    (rest : List Rec) (iw' : IW) (h : journalWrite j recs iw = (j', n, pos, rest, iw')) (hn : 0 < n) :
+    ∃ o' : Out, o'.calls = o.calls ++ [(pos.2 - n, pos.2 - 1, pos.1, iw'.minTs, iw'.maxTs)] ∧
+      serviceWriteWith.loop (fuel + 1) j recs iw o =
+        (match (generalizing := false) rest with
+         | [] => (j', o')
+         | r :: _ => serviceWriteWith.loop fuel j' rest (iw'.see r.ts) o') := by
+  refine ⟨{ o with calls := o.calls ++ [(pos.2 - n, pos.2 - 1, pos.1, iw'.minTs, iw'.maxTs)],
+                   start := (match o.start with | none => some (pos.1, pos.2 - n) | s => s), endp := some pos }, rfl, ?_⟩
+  have hn0 : (n == 0) = false := by simp; omega
+  simp only [serviceWriteWith.loop, h, gt_iff_lt, hn, if_true, hn0]
+  cases rest <;> simp <;> (cases o.start <;> rfl)
+
+theorem CallOKt_l {tss : List (List Int)} {ps : List Piece} (h : CallOKt tss ps) : ∀ q ∈ ps, q.l ≠ [] := by
+  cases ps with
+  | nil => intro q hq; cases hq
+  | cons pc rest =>
+    intro q hq
+    rcases List.mem_cons.mp hq with rfl | hq
+    · exact h.1
+    · exact (h.2.2 q hq).1
+
+/-- the piece of one round, as `pieceStep` computes it -/
+theorem pieceStep_round (cidx : CIndex.St) (tss : List (List Int)) (iw0 : IW) (nc : Bool) (l : List Int) :
+    pieceStep (⟨cidx, tss⟩, iw0) ⟨nc, l⟩ =
+      (⟨(CIndex.onWrite cidx (if nc then [] else tss.getLast?.getD []).length
+            ((if nc then [] else tss.getLast?.getD []).length + l.length - 1)
+            ((if nc then tss else tss.dropLast).length + 1) (l.foldl IW.see iw0).minTs (l.foldl IW.see iw0).maxTs).1,
+         (if nc then tss else tss.dropLast) ++ [(if nc then [] else tss.getLast?.getD []) ++ l]⟩, l.foldl IW.see iw0) := rfl
+
+theorem loop_spec : ∀ (fuel : Nat) (recs : List Rec) (j : J) (tss : List (List Int)) (iw0 iw : IW) (o : Out),
+    JL j tss → recs ≠ [] → recs.length < fuel → (∀ r rs, recs = r :: rs → iw.see r.ts = iw0.see r.ts) →
+    ∃ (pieces : List Piece) (extra : List (Nat × Nat × Nat × Int × Int)),
+      CallOKt tss pieces ∧ (Full j → ∀ q ∈ pieces, q.newChunk = true) ∧
+      (pieces.map (·.l)).flatten = recs.map (·.ts) ∧
+      (serviceWriteWith.loop fuel j recs iw o).2.calls = o.calls ++ extra ∧
+      ∀ (cidx : CIndex.St) (b : List Nat),
+        (extra.foldl F (cidx, b)).1 = (pieces.foldl pieceStep (⟨cidx, tss⟩, iw0)).1.cidx ∧
+        JL (serviceWriteWith.loop fuel j recs iw o).1 (pieces.foldl pieceStep (⟨cidx, tss⟩, iw0)).1.tss := by
+  intro fuel
+  induction fuel with
+  | zero => intro recs j tss iw0 iw o _ _ h; omega
+  | succ fuel ih =>
+    intro recs j tss iw0 iw o hj hne hlen hpeek
+    obtain ⟨nc, w, rest, j', he, hw, hsplit, hnc, hfull, hjl, hrest⟩ := journalWrite_spec j tss recs iw hj hne
+    have hpos : 0 < w.length := List.length_pos_iff.mpr hw
+    -- the hull: the peek has no effect
+    have hiw : (w.map (·.ts)).foldl IW.see iw = (w.map (·.ts)).foldl IW.see iw0 := by
+      cases w with
+      | nil => exact absurd rfl hw
+      | cons r w' =>
+        have := hpeek r (w' ++ rest) (by simp [hsplit])
+        simp only [List.map_cons, List.foldl_cons, this]
+    rw [hiw] at he
+    obtain ⟨o', ho', hloop⟩ := loop_round fuel j recs iw o _ _ _ _ _ he hpos
+    have hps := fun cidx => pieceStep_round cidx tss iw0 nc (w.map (·.ts))
+    have hcall : ∃ call, o'.calls = o.calls ++ [call] ∧ ∀ (cidx : CIndex.St) (b : List Nat),
+        (F (cidx, b) call).1 = (pieceStep (⟨cidx, tss⟩, iw0) ⟨nc, w.map (·.ts)⟩).1.cidx :=
+      ⟨_, ho', fun cidx b => by rw [hps]; simp only [F, List.length_map, Nat.add_sub_cancel]⟩
+    clear ho'
+    obtain ⟨call, ho', hF⟩ := hcall
+    have hwl : (w.map (·.ts)) ≠ [] := by simpa using hw
+    cases rest with
+    | nil =>
+      refine ⟨[⟨nc, w.map (·.ts)⟩], [call], ⟨hwl, hnc, by simp⟩, ?_, ?_, ?_, ?_⟩
+      · intro hF' q hq
+        simp at hq; subst hq; exact hfull hF'
+      · simp [hsplit]
+      · rw [hloop]; exact ho'
+      · intro cidx b
+        refine ⟨?_, ?_⟩
+        · simp only [List.foldl_cons, List.foldl_nil]; exact hF cidx b
+        · rw [hloop]; simp only [List.foldl_cons, List.foldl_nil, hps]; exact hjl
+    | cons r rs =>
+      have hlen' : (r :: rs).length < fuel := by
+        have := congrArg List.length hsplit
+        simp at this hlen ⊢; omega
+      obtain ⟨pieces', extra', hok', hall', hflat', hcalls', hfold'⟩ :=
+        ih (r :: rs) j' _ ((w.map (·.ts)).foldl IW.see iw0) (((w.map (·.ts)).foldl IW.see iw0).see r.ts) o' hjl
+          (by simp) hlen' (by intro r' rs' h; cases h; exact see_see _ _)
+      have hFull' := hrest (by simp)
+      refine ⟨⟨nc, w.map (·.ts)⟩ :: pieces', call :: extra', ⟨hwl, hnc, ?_⟩, ?_, ?_, ?_, ?_⟩
+      · intro q hq
+        exact ⟨CallOKt_l hok' q hq, hall' hFull' q hq⟩
+      · intro hF' q hq
+        rcases List.mem_cons.mp hq with rfl | hq
+        · exact hfull hF'
+        · exact hall' hFull' q hq
+      · simp [hsplit, hflat']
+      · rw [hloop]; simp only [hcalls', ho', List.append_assoc, List.cons_append, List.nil_append]
+      · intro cidx b
+        rw [hloop]
+        simp only [List.foldl_cons]
+        have := hfold' (F (cidx, b) call).1 (F (cidx, b) call).2
+        have e := hF cidx b
+        rw [hps] at e ⊢
+        dsimp only at e
+        rw [← e]
+        exact this
+
+/-! ## nothing to write -/
+
+theorem journalWrite_nil (j : J) (tss : List (List Int)) (iw : IW) (hj : JL j tss) (c : Chunk)
+    (hl : j.chunks.getLast? = some c) (hsz : c.size < j.maxSize) : journalWrite j [] iw = (j, 0, (0, 0), [], iw) := by
+  have hgo : journalWrite j [] iw = journalWrite.go [] iw 4 j none := rfl
+  rw [hgo, go_succ]
+  obtain ⟨pre, hpre⟩ := List.getLast?_eq_some_iff.mp hl
+  have htne : tss ≠ [] := by
+    intro h
+    have := congrArg List.length hj.ids
+    simp [hpre, h] at this
+  rw [tss_snoc tss htne] at hj
+  have hsel : sel j none = (j, c) := by simp [sel, hl]
+  have hcw : chunkWrite (([] : List Rec).length + 1) c j.maxSize [] iw 0 = (c, 0, [], iw, false) := by
+    unfold chunkWrite
+    have : ¬ c.size ≥ j.maxSize := by omega
+    simp [this]
+  have hm := map_repl (c' := c) hj hpre
+  rw [hsel]
+  unfold body
+  simp only [hcw, hm, ← hpre]
+  simp
+
+theorem loop_nil (fuel : Nat) (j : J) (tss : List (List Int)) (iw : IW) (o : Out) (hj : JL j tss) (c : Chunk)
+    (hl : j.chunks.getLast? = some c) (hsz : c.size < j.maxSize) :
+    serviceWriteWith.loop (fuel + 1) j [] iw o = (j, o) := by
+  simp only [serviceWriteWith.loop, journalWrite_nil j tss iw hj c hl hsz]
+  simp
+
+/-! ## the statement -/
+
+/-- the write loop's journal `j` stands for the records `tss` (chunk k+1 ↔ tss[k]) -/
+structure JInv (j : WriteLoop.J) (tss : List (List Int)) : Prop where
+  len : j.chunks.length = tss.length
+  ids : ∀ i (h : i < j.chunks.length), (j.chunks[i]).id = i + 1
+  cnts : ∀ i (h1 : i < j.chunks.length) (h2 : i < tss.length), (j.chunks[i]).cnt = (tss[i]).length
+  next : j.nextId = j.chunks.length + 1
+  pos : 0 < j.maxSize
+
+theorem JInv.toJL {j : J} {tss : List (List Int)} (h : JInv j tss) : JL j tss := by
+  refine ⟨?_, ?_, ?_, h.pos⟩
+  · apply List.ext_getElem
+    · simp [h.len]
+    · intro i h1 h2
+      simp only [List.length_map] at h1
+      simp [List.getElem_map, List.getElem_range', h.ids i h1]; omega
+  · apply List.ext_getElem
+    · simp [h.len]
+    · intro i h1 h2
+      simp only [List.length_map] at h1 h2
+      simp [List.getElem_map, h.cnts i h1 h2]
+  · rw [h.next, h.len]
+
+theorem JL.toJInv {j : J} {tss : List (List Int)} (h : JL j tss) : JInv j tss := by
+  have hlen : j.chunks.length = tss.length := by simpa using congrArg List.length h.ids
+  refine ⟨hlen, ?_, ?_, ?_, h.pos⟩
+  · intro i hi
+    have := List.getElem_of_eq h.ids (i := i) (by simpa using hi)
+    simp [List.getElem_map, List.getElem_range'] at this
+    omega
+  · intro i h1 h2
+    have := List.getElem_of_eq h.cnts (i := i) (by simpa using h1)
+    simpa [List.getElem_map] using this
+  · rw [h.next, hlen]
+
+theorem writeWith_fst (iw0 : IW) (j : J) (cidx : CIndex.St) (recs : List Rec) :
+    (RangedIter.writeWith iw0 j cidx recs).1 = (serviceWriteWith iw0 j recs).1 := rfl
+
+theorem writeWith_cidx (iw0 : IW) (j : J) (cidx : CIndex.St) (recs : List Rec) :
+    (RangedIter.writeWith iw0 j cidx recs).2.1 = ((serviceWriteWith iw0 j recs).2.calls.foldl F (cidx, [])).1 := rfl
+
+/-- **`Service.Write` is one `call` event of the history model**: the OnWrite notifications it sends are the pieces of a
+call (`CallOKt`), every record is written, in order, and the chunk index / journal after the call are those of
+`PipeHist.step`.
+
+`hne`: with NO records and a last chunk that is absent or full, `Journal.Write` still creates a new (empty) chunk that
+the history model does not have (`j = {chunks := [], nextId := 1, maxSize := 1}`, `tss = []`, `recs = []`: the journal
+after the call has one chunk, `step` of the only possible call `[]` has none) — excluded. -/
+theorem writeWith_is_call (j : WriteLoop.J) (cidx : CIndex.St) (tss : List (List Int)) (recs : List WriteLoop.Rec)
+    (hj : JInv j tss)
+    (hne : recs ≠ [] ∨ ∃ c, j.chunks.getLast? = some c ∧ c.size < j.maxSize) :
+    ∃ pieces : List PartHist.Piece,
+      PipeHist.CallOKt tss pieces ∧ (pieces.map (·.l)).flatten = recs.map (·.ts) ∧
+      (RangedIter.writeWith {} j cidx recs).2.1 = (PipeHist.step ⟨cidx, tss⟩ (.call pieces)).cidx ∧
+      JInv (RangedIter.writeWith {} j cidx recs).1 (PipeHist.step ⟨cidx, tss⟩ (.call pieces)).tss := by
+  have hl := hj.toJL
+  rw [writeWith_fst, writeWith_cidx]
+  have hsw : serviceWriteWith {} j recs = serviceWriteWith.loop (recs.length + 2) j recs {} {} := rfl
+  rw [hsw]
+  by_cases hr : recs = []
+  · subst hr
+    rcases hne with h | ⟨c, hc, hsz⟩
+    · exact absurd rfl h
+    · refine ⟨[], trivial, rfl, ?_, ?_⟩
+      · rw [loop_nil _ j tss _ _ hl c hc hsz]; rfl
+      · rw [loop_nil _ j tss _ _ hl c hc hsz]; exact hj
+  · obtain ⟨pieces, extra, hok, _, hflat, hcalls, hfold⟩ :=
+      loop_spec (recs.length + 2) recs j tss {} {} {} hl hr (by omega) (fun _ _ _ => rfl)
+    refine ⟨pieces, hok, hflat, ?_, ?_⟩
+    · rw [hcalls]
+      exact (hfold cidx []).1
+    · exact (hfold cidx []).2.toJInv
+
+/-- the form for a non-empty batch -/
+theorem writeWith_is_call_of_ne (j : WriteLoop.J) (cidx : CIndex.St) (tss : List (List Int)) (recs : List WriteLoop.Rec)
+    (hj : JInv j tss) (hne : recs ≠ []) :
+    ∃ pieces : List PartHist.Piece,
+      PipeHist.CallOKt tss pieces ∧ (pieces.map (·.l)).flatten = recs.map (·.ts) ∧
+      (RangedIter.writeWith {} j cidx recs).2.1 = (PipeHist.step ⟨cidx, tss⟩ (.call pieces)).cidx ∧
+      JInv (RangedIter.writeWith {} j cidx recs).1 (PipeHist.step ⟨cidx, tss⟩ (.call pieces)).tss :=
+  writeWith_is_call j cidx tss recs hj (Or.inl hne)
+
+/-- the hypothesis `hne` of `writeWith_is_call` cannot be dropped: an empty `Write` on an empty partition creates a chunk -/
+theorem writeWith_is_call_needs_hne (cidx : CIndex.St) :
+    JInv { chunks := [], nextId := 1, maxSize := 1 } [] ∧
+    ¬ ∃ pieces : List PartHist.Piece,
+      PipeHist.CallOKt [] pieces ∧ (pieces.map (·.l)).flatten = ([] : List WriteLoop.Rec).map (·.ts) ∧
+      (RangedIter.writeWith {} { chunks := [], nextId := 1, maxSize := 1 } cidx []).2.1 =
+        (PipeHist.step ⟨cidx, []⟩ (.call pieces)).cidx ∧
+      JInv (RangedIter.writeWith {} { chunks := [], nextId := 1, maxSize := 1 } cidx []).1
+        (PipeHist.step ⟨cidx, []⟩ (.call pieces)).tss := by
+  refine ⟨⟨rfl, fun i h => absurd h (by simp), fun i h => absurd h (by simp), rfl, by decide⟩, ?_⟩
+  rintro ⟨pieces, hok, hflat, _, hinv⟩
+  cases pieces with
+  | nil =>
+    have := hinv.len
+    rw [writeWith_fst] at this
+    have h2 : (PipeHist.step ⟨cidx, []⟩ (.call [])).tss.length = 0 := rfl
+    rw [h2] at this
+    exact absurd this (by decide)
+  | cons pc rest =>
+    have h1 := hok.1
+    simp at hflat
+    exact h1 hflat.1
+
 end Logrange.PipeWrite
